@@ -4,9 +4,14 @@ package backend
 
 import (
 	"context"
+	"sync/atomic"
+	"time"
 
 	proto "github.com/kubewharf/kubebrain-client/api/v2rpc"
 
+	"github.com/kubewharf/kubebrain/pkg/storage"
+	"github.com/kubewharf/kubebrain/pkg/storage/memkv"
+	"github.com/kubewharf/kubebrain/pkg/zzmodel"
 	"github.com/kubewharf/kubebrain/pkg/zzverif"
 )
 
@@ -46,5 +51,85 @@ func VerifC19HubOverflow() {
 	_, open := w.b.watcherHub.subs[slow]
 	w.b.watcherHub.RUnlock()
 	zzverif.Assert(!open, "the overflowing subscriber was dropped")
+	zzverif.Cover("done")
+}
+
+// vUnknownOnce wraps an engine: the first batch committed after arming lands, but its commit is
+// answered "outcome unknown".
+type vUnknownOnce struct {
+	storage.KvStorage
+	armed int32
+}
+
+type vUnknownBatch struct {
+	storage.BatchWrite
+	s *vUnknownOnce
+}
+
+func (s *vUnknownOnce) BeginBatchWrite() storage.BatchWrite {
+	return &vUnknownBatch{s.KvStorage.BeginBatchWrite(), s}
+}
+
+func (b *vUnknownBatch) Commit(ctx context.Context) error {
+	err := b.BatchWrite.Commit(ctx)
+	if err == nil && atomic.CompareAndSwapInt32(&b.s.armed, 1, 0) {
+		return storage.NewErrUncertainResult(zzmodel.ErrInjected)
+	}
+	return err
+}
+
+// VerifC19RetryLoop (run with the race monitor): over the real in-memory engine, a write whose
+// commit was answered "outcome unknown" (and did land) sits in the repair queue; the background
+// repair loop ticks while a second write on the same key, a compaction request (which asks the
+// queue for its oldest unresolved revision) and a point read run — every interleaving of the
+// repair loop, the sequencer and the three requests within the delay bound. No conflicting
+// unsynchronised accesses (queue nodes, result slots, revision counters, the engine), and the
+// node converges afterwards.
+func VerifC19RetryLoop() {
+	retryInterval = 1000 * time.Millisecond
+	checkInterval = 50 * time.Millisecond
+	kv := &vUnknownOnce{KvStorage: memkv.NewKvStorage()}
+	b := NewBackend(kv, Config{Prefix: vPrefix, EnableEtcdCompatibility: true, WatchCacheSize: 4}, zzmodel.NoMetrics{}).(*backend)
+	b.tso.Init(5)
+	key := vNames[0]
+	c, err := b.Create(vCtx(), &proto.CreateRequest{Key: key, Value: []byte("c")})
+	zzverif.Assert(err == nil && c.Succeeded, "setup create")
+	zzverif.WaitIdle()
+	atomic.StoreInt32(&kv.armed, 1)
+	_, err = b.Update(vCtx(), &proto.UpdateRequest{Kv: &proto.KeyValue{Key: key, Value: []byte("u"), Revision: c.Header.Revision}})
+	zzverif.Assert(err != nil, "unknown outcome is reported as an error")
+	zzverif.WaitIdle()
+	zzverif.Assert(b.asyncFifoRetry.Size() == 1, "the unresolved write is queued for repair")
+	done := make(chan struct{}, 3)
+	zzverif.AdvanceClock()
+	zzverif.ExploreSchedules(zzverif.Param("preempt", 1))
+	zzverif.Foreground("collectStorageWriteEvents")
+	zzverif.Foreground("Run")
+	zzverif.FireTickers()
+	zzverif.Go("writer", func() {
+		b.Update(vCtx(), &proto.UpdateRequest{Kv: &proto.KeyValue{Key: key, Value: []byte("w"), Revision: c.Header.Revision + 1}})
+		done <- struct{}{}
+	})
+	zzverif.Go("compactor", func() {
+		b.Compact(vCtx(), 0)
+		done <- struct{}{}
+	})
+	zzverif.Go("reader", func() {
+		b.Get(vCtx(), &proto.GetRequest{Key: key})
+		done <- struct{}{}
+	})
+	<-done
+	<-done
+	<-done
+	zzverif.StopExploring()
+	for i := 0; i < 3 && b.asyncFifoRetry.Size() > 0; i++ {
+		zzverif.AdvanceClock()
+		zzverif.FireTickers()
+		zzverif.WaitIdle()
+	}
+	zzverif.WaitIdle()
+	zzverif.Assume(b.asyncFifoRetry.Size() == 0) // the executions in which the repair loop got to run
+	g, err := b.Get(vCtx(), &proto.GetRequest{Key: key})
+	zzverif.Assert(err == nil && g.Kv != nil, "the key is readable after the repair")
 	zzverif.Cover("done")
 }
